@@ -29,7 +29,11 @@ static void ev(const char* tag, long long x, double d, const char* extra = nullp
 static int id_of(const sg4::Activity& a)
 {
   auto it = ids.find(&a);
-  return it == ids.end() ? -1 : it->second;
+  if (it != ids.end())
+    return it->second;
+  // a signal fired while a loader is still building the DAG: JSON tasks are named t<i>
+  const std::string& nm = a.get_name();
+  return nm.size() > 1 && nm[0] == 't' ? atoi(nm.c_str() + 1) : -1;
 }
 template <class T> static void hook()
 {
